@@ -52,6 +52,9 @@ class Emitter:
         if k == 'node': return '(.node %s %s)' % (self.kind(e[1]), self.pe(e[2]))
         if k == 'beginKw': return '(.beginKw %d)' % e[1]
         if k == 'kwScope': return '(.kwScope %d %s)' % (e[1], self.pe(e[2]))
+        if k == 'kwGuard':
+            if isinstance(e[1], tuple): raise grammar.Unsupported('unfilled hole in kwGuard')
+            return '(.kwGuard %s)' % hoist(e[1])
         if k == 'shaped': return '(.shaped [%s] %s)' % (', '.join(self.pe(x) for x in e[1]), self.shape(e[2]))
         if k == 'nestl': return '(.nestl %s %s [%s] %s)' % (self.pe(e[1]), self.pe(e[2]), ', '.join(self.kind(x) for x in e[3]), self.kind(e[4]))
         if k == 'hole': raise grammar.Unsupported('unfilled hole')
@@ -74,12 +77,24 @@ def is_keyword_map():
     for whole, ver, tbl in arms:
         if whole == 'None': default = tbl
         else: vmap[ver] = tbl
+    # is_later_keyword: exempt versions and reference table
+    ml = re.search(r'fn is_later_keyword\(.*?\{(.*?)\n\}', src, re.S)
+    later = {'exempt': [], 'reference': None, 'tables_match': False}
+    if ml:
+        lb = ml.group(1)
+        ex = re.search(r'((?:Some\(Version::\w+\)|None)(?:\s*\|\s*(?:Some\(Version::\w+\)|None))*)\s*=>\s*return false', lb)
+        if ex: later['exempt'] = re.findall(r'Version::(\w+)', ex.group(1)) + (['None'] if 'None' in ex.group(1) else [])
+        arms2 = dict(re.findall(r'Some\(Version::(\w+)\)\s*=>\s*(KEYWORDS_\w+)\s*,', lb))
+        later['tables_match'] = all(vmap.get(k) == v for k, v in arms2.items()) and bool(arms2)
+        fm = re.search(r'(KEYWORDS_\w+)\.contains\(&t\)\s*&&\s*!keywords\.contains\(&t\)', lb)
+        if fm: later['reference'] = fm.group(1)
+        later['guarded'] = sorted(arms2)
     # begin_keywords: string -> Version variant
     m2 = re.search(r'fn begin_keywords\(.*?\{(.*?)\n\}', src, re.S)
     smap = dict(re.findall(r'"([^"]+)"\s*=>\s*current_version\s*\.?\s*borrow_mut\(\)\s*\.?\s*push\(Version::(\w+)\)', re.sub(r'\s+', ' ', m2.group(1))))
     # the compare loop must be `s.fragment() == k`
     exact = bool(re.search(r'for k in keywords \{\s*if s\.fragment\(\) == k \{\s*return true;', body))
-    return vmap, default, smap, exact
+    return vmap, default, smap, exact, later
 
 def generate(workdir='/verif/work'):
     os.makedirs(workdir, exist_ok=True)
@@ -166,7 +181,7 @@ def generate(workdir='/verif/work'):
              'end Sv.Gen', '']
         if write_if_changed(os.path.join(GEN, 'M%02d.lean' % sh), '\n'.join(w)): changed.append('M%02d' % sh)
     # keyword tables
-    kt = keyword_tables(); vmap, default, smap, exact = is_keyword_map()
+    kt = keyword_tables(); vmap, default, smap, exact, later = is_keyword_map()
     vers = grammar.VERSIONS
     variant_of = {'1364-1995': 'Ieee1364_1995', '1364-2001': 'Ieee1364_2001', '1364-2001-noconfig': 'Ieee1364_2001Noconfig',
                   '1364-2005': 'Ieee1364_2005', '1800-2005': 'Ieee1800_2005', '1800-2009': 'Ieee1800_2009',
@@ -193,7 +208,18 @@ def generate(workdir='/verif/work'):
     g.append('def kwDefault : Nat := %d' % (dflt if dflt is not None else 999))
     g.append('def allProdsL : List Prod := ' + ' ++ '.join('prods%02d' % i for i in range(NSHARDS)))
     g.append('def allProds : Array Prod := ⟨allProdsL⟩')
-    g.append('def grammar : Grammar := { prods := allProds, kwTables := kwTables, kwDefault := kwDefault }')
+    inv_variant = {v: k for k, v in variant_of.items()}
+    no_guard = sorted(vers.index(inv_variant[x]) for x in later.get('exempt', []) if x in inv_variant)
+    ref_idx = None
+    for i, v in enumerate(vers):
+        if vmap.get(variant_of[v]) == later.get('reference'): ref_idx = i if ref_idx is None or v == '1800-2017' else ref_idx
+    if later.get('reference') is not None:
+        if not later.get('tables_match'): kw_problems.append('is_later_keyword uses different tables than is_keyword')
+        if 'None' not in later.get('exempt', []): kw_problems.append('is_later_keyword is not exempt outside `begin_keywords regions')
+        if sorted(no_guard + [vers.index(inv_variant[x]) for x in later.get('guarded', []) if x in inv_variant]) != list(range(len(vers))): kw_problems.append('is_later_keyword does not cover every version')
+        g.append('def grammar : Grammar := { prods := allProds, kwTables := kwTables, kwDefault := kwDefault, kwLatest := %d, kwNoGuard := [%s] }' % (ref_idx if ref_idx is not None else 999, ', '.join(map(str, no_guard))))
+    else:
+        g.append('def grammar : Grammar := { prods := allProds, kwTables := kwTables, kwDefault := kwDefault }')
     g.append('def nProds : Nat := %d' % len(names))
     for entry in ('source_text', 'source_text_incomplete', 'library_text', 'library_text_incomplete', 'preprocessor_text',
                   'white_space', 'description', 'library_description', 'source_description', 'simple_identifier_impl',
@@ -295,6 +321,9 @@ def generate(workdir='/verif/work'):
         'names': names, 'kind_names': ['Locate'] + [k[0] for k in tr.kinds],
         'kind_sorts': {k[0]: k[1] for k in tr.kinds},
     }
+    json.dump({v: t for v, t in zip(vers, tbls)}, open(os.path.join(workdir, 'keywords.json'), 'w'))
+    with open(os.path.join(workdir, 'keywords.txt'), 'w') as kf:
+        for v, t in zip(vers, tbls): kf.write(v + ' ' + ' '.join(t) + '\n')
     open(os.path.join(workdir, 'kinds.txt'), 'w').write('\n'.join(summary['kind_names']) + '\n')
     json.dump(summary, open(os.path.join(workdir, 'summary.json'), 'w'))
     return summary
